@@ -54,7 +54,9 @@ func genBatchRetry(r *rng, thorough bool, emit func(FlowScenario)) {
 
 // long paths: a self-loop / a two-node cycle taken many more times than any plausible step limit before it exits. The
 // looping visits share one default script per node; only the exiting visit has a script of its own.
-func genLongLoops(r *rng, thorough bool, emit func(FlowScenario)) { genLongLoopsVia(r, thorough, "again", "=again", emit) }
+func genLongLoops(r *rng, thorough bool, emit func(FlowScenario)) {
+	genLongLoopsVia(r, thorough, "again", "=again", emit)
+}
 
 // genLongLoopsVia: the looping edge carries `action`, the looping visits' post script is `post` ("=" = the empty action,
 // which is the default action: the loop then runs on DEFAULT connections)
@@ -567,6 +569,43 @@ func genBatchSeq(r *rng, thorough bool, emit func(FlowScenario)) {
 			}
 		}
 		bs.Prep = strings.Join(parts, ",")
+		emit(mk(cfg, bs))
+	}
+	// a typed slice of pointers with nil elements: every element is an item (token kind 3 = *int, 1001 = the nil *int)
+	for rep := 0; rep < 12; rep++ {
+		n := 2 + r.intn(4)
+		conc := []int{0, 1, 3}[rep%3]
+		t.next, t.errN = r.intn(30), r.intn(20)
+		cfg := BatchCfg{Budget: 1, Fb: "pass", Conc: conc, ExecS: r.pick([]string{"res", "any"}), HasPost: true, Shape: "ptrs",
+			Build: r.pick([]string{"option", "builder", "bare"})}
+		parts := []string{}
+		bs := BatchScript{N: 0, V: 0, Post: "=done"}
+		nilAt := r.intn(n)
+		for i := 0; i < n; i++ {
+			if i == nilAt {
+				parts = append(parts, "t1001")
+			} else {
+				t.next++
+				for t.next%8 != 3 {
+					t.next++
+				}
+				parts = append(parts, "t"+strconv.Itoa(t.next))
+			}
+			bs.Items = append(bs.Items, t.itemScript(3, 2, false, cfg.ExecS))
+		}
+		bs.Prep = strings.Join(parts, ",")
+		emit(mk(cfg, bs))
+	}
+	// the batch settings are given to the node by its own prep callback (built with decoys): sequential, one worker, and
+	// wide in continue mode
+	for rep := 0; rep < 30; rep++ {
+		n := 1 + r.intn(6)
+		conc := []int{0, 1, 3}[rep%3]
+		stop := conc <= 1 && rep%2 == 0
+		t.next, t.errN = r.intn(30), r.intn(20)
+		cfg := BatchCfg{Budget: 1 + r.intn(2), Fb: "pass", Conc: conc, Stop: stop, ExecS: r.pick([]string{"res", "any"}), HasPost: true,
+			Shape: "results", Build: r.pick([]string{"option", "builder", "bare"}), PrepConf: true}
+		bs := randBatchScript(t, 0, 0, &cfg, n, 35, "=done")
 		emit(mk(cfg, bs))
 	}
 	// single value / nil payloads and the empty batch (also with post returning the empty action)
